@@ -222,9 +222,9 @@ Boolean FloatRangeCheck(Double Wert, FloatType Typ) {
     case Float16:
         return (fabs(Wert) <= 65504.0);
     case Float32:
-        return (fabs(Wert) <= 3.4e38);
+        return (fabs(Wert) <= 3.40282346638528859812e38); /* largest finite single */
     case Float64:
-        return (fabs(Wert) <= 1.7e308);
+        return (fabs(Wert) <= 1.79769313486231570815e308); /* largest finite double */
         /**     case FloatCo: return fabs(Wert) <= 9.22e18; */
     case Float80:
         return True;
